@@ -13,17 +13,24 @@ MISMATCH_FN = "mismatch"
 VIOLATES_FN = "violates"
 RULE = ("a case = 2-5 fresh wasm contracts (creator / admin drawn from keyed accounts, none, gov module, another "
         "contract, a key-less account; hello_world_counter or reflect) and a history of 4-14 steps on one long-lived "
-        "chain: x/devgas param changes (enabled, DeveloperShares in [0,1] incl. 0, 1, 1/2, 1/3, 1e-18, AllowedDenoms "
-        "subsets), wasm admin changes, block boundaries, and signed txs through DeliverTx with 0-3 fee denoms "
+        "chain: x/devgas parameter changes by MsgUpdateParams (3/4) and by the module's InitGenesis (1/4) at any point "
+        "of the history (enabled/disabled, DeveloperShares in [0,1] incl. 0, 1, 1/2, 1/3, 1e-18, AllowedDenoms empty / "
+        "subsets / repeats; one third drawn from the corners, half of those the all-off value {disabled, share 0, no "
+        "denoms}; 1/12 invalid: share <0, >1, nil), a switch-off pattern (registrations, then disabled-by-params/genesis, "
+        "execute of a registered contract with a non-empty fee, a registry message, switched on again), "
+        "wasm admin changes, block boundaries, and signed txs through DeliverTx with 0-3 fee denoms "
         "(amounts 1-12, boundary values, up to 1e30) carrying 1-6 messages: top-level MsgExecuteContract (registered / "
         "unregistered / repeated / missing contract, bad payload, nested dispatch through reflect), authz-wrapped "
         "messages, Register/Update/Cancel by authorities, former admins and strangers, bank sends. ~20% malformed "
         "stream. non-trivial = some delivered tx paid a withdrawer, or a registry change was refused as unauthorised "
-        "/ invalid-withdrawer; distinct = distinct input")
+        "/ invalid-withdrawer, or a registered contract was executed with a non-empty fee while the parameters as set "
+        "say disabled; distinct = distinct input")
 ASSUMPTIONS = [
     "whether a wasm execute succeeds is predicted from the payload flag, contract existence and reflect ownership (wasm VM not modelled)",
     "balances are re-read at block boundaries (distribution sweeping the fee collector is outside the model)",
     "wasm admin changes and x/devgas param changes happen between transactions (environment steps), not inside a tx",
+    "the stored ModuleParams item is always written before it is read (InitGenesis / MsgUpdateParams): the never-written store of a module added by an upgrade without InitGenesis is outside the histories; DeveloperShares.IsNil() is false on every stored value",
+    "the genesis step re-runs the module's InitGenesis (JSON genesis state, params only) on the running chain; the registry is left as it is",
 ]
 TRUSTED = ["coq/Lib/Dec.v rendering of LegacyDec MulInt/QuoInt64/RoundInt (validated by the correspondence run)"]
 HARNESS_TIMEOUT = {"quick": 600, "thorough": 3600}
@@ -82,6 +89,17 @@ def _fee(st):
     return sorted(acc.items())
 
 
+def _share(st):
+    """raw LegacyDec integer; the nil Dec (refused by Validate) is rendered as an invalid negative value"""
+    sh = st.get("share", "0")
+    if sh == "nil":
+        return -1
+    try:
+        return int(sh)
+    except ValueError:
+        return 0
+
+
 def _signer(st):
     return 3 + (st.get("signer", 0) - 3) % 3
 
@@ -120,10 +138,11 @@ def to_coq_case(rec):
     steps = []
     for st, so in zip(inp.get("steps") or [], obs["steps"]):
         op = st["op"]
-        if op == "params":
+        if op in ("params", "genesis"):
             al = [d % NDENOMS for d in st.get("allowed") or []]
-            steps.append("CParams (mkp %s %s %s) %s" % ("true" if st.get("enabled") else "false", _z(st.get("share", "0")), _nl(al),
-                                                       "true" if so.get("ok") else "false"))
+            steps.append("%s (mkp %s %s %s) %s" % ("CParams" if op == "params" else "CGenesis",
+                                                   "true" if st.get("enabled") else "false", _z(_share(st)), _nl(al),
+                                                   "true" if so.get("ok") else "false"))
         elif op == "admin":
             if not so.get("ok"):
                 continue
@@ -137,7 +156,8 @@ def to_coq_case(rec):
             o = "mko %d %d %s %s" % (so["class"], so["err"], _tbl(so.get("delta") or []), _reg(so.get("reg") or []))
             steps.append("CTx (mkt %d %s %s) (%s)" % (_signer(st), fee, msgs, o))
     return ("{| c_env := {| e_collector := 0; e_gov := 1; e_blocked := [0; 2];\n"
-            "                e_allowed_once := allowed_fees_break_after_first_match |};\n"
+            "                e_allowed_once := allowed_fees_break_after_first_match;\n"
+            "                e_defaults := devgas_default_params; e_san := devgas_sanitize_rules |};\n"
             "     c_wasm := [%s];\n     c_ids := %s; c_denoms := [0;1;2];\n     c_bal0 := %s;\n     c_reg0 := %s;\n"
             "     c_steps := [\n       %s] |}" % ("; ".join(wasm), _nl(ids), _tbl(obs["bal0"]), _reg(obs["reg0"]),
                                                   ";\n       ".join(steps)))
@@ -162,13 +182,32 @@ def _paid(st, so):
     return False
 
 
+def _disabled_execs(rec):
+    """delivered txs with a non-empty fee and a top-level execute of a contract registered before the tx, while the
+    parameters AS SET (last accepted params / genesis step) say disabled"""
+    enabled = True
+    reg = {c for c, d, w in rec["obs"].get("reg0") or [] if d >= 0}
+    n = len(rec["input"].get("contracts") or [])
+    out = 0
+    for st, so in zip(rec["input"].get("steps") or [], rec["obs"]["steps"]):
+        if st["op"] in ("params", "genesis"):
+            if so.get("ok"):
+                enabled = bool(st.get("enabled"))
+        elif st["op"] == "tx":
+            if not enabled and so["class"] != 1 and _fee(st) and any(
+                    m["k"] == "exec" and _resolve(m.get("c", 0), n) in reg for m in st.get("msgs") or []):
+                out += 1
+            reg = {c for c, d, w in so.get("reg") or [] if d >= 0}
+    return out
+
+
 def nontrivial(rec):
     for st, so in _txs(rec):
         if so["class"] != 1 and _paid(st, so):
             return True
         if so["class"] == 2 and so["err"] in (6, 10):
             return True
-    return False
+    return _disabled_execs(rec) > 0
 
 
 def _kinds(m, depth=0):
@@ -186,8 +225,14 @@ def classify(rec):
         ks.append("creator:" + ("contract" if c.get("creator", 0) >= 8 else "account"))
     for st, so in zip(rec["input"].get("steps") or [], rec["obs"]["steps"]):
         ks.append("step:" + st["op"])
-        if st["op"] == "params":
-            sh = int(st.get("share", "0"))
+        if st["op"] in ("params", "genesis"):
+            sh = _share(st)
+            if not so.get("ok"):
+                ks.append("params:refused")
+            elif not st.get("enabled") and sh == 0 and not st.get("allowed"):
+                ks.append("params:all-off" + ("(genesis)" if st["op"] == "genesis" else ""))
+            elif st.get("enabled") and sh in (0, 10 ** 18):
+                ks.append("params:enabled-share-0-or-1")
             ks.append("share:" + ("0" if sh == 0 else "1" if sh == 10 ** 18 else "1/2" if sh == 5 * 10 ** 17 else "1/3" if sh == 333333333333333333 else "other"))
             ks.append("allowed=%d" % len(st.get("allowed") or []))
             if not st.get("enabled"):
@@ -209,6 +254,8 @@ def classify(rec):
             ks.append("top_execs=%d" % min(nex, 6))
             if so["class"] != 1 and _paid(st, so):
                 ks.append("payout")
+    if _disabled_execs(rec):
+        ks.append("registered-exec-while-disabled-as-set")
     return ks
 
 
@@ -258,7 +305,11 @@ MANIFEST = {
                  "step and of the three fee-share registry handlers: C18_tx_satisfies_property / C18_history_satisfies_property "
                  "state, for EVERY state, transaction and history (any fee coins incl. 1-2 units, any DeveloperShares in [0,1], any "
                  "AllowedDenoms list incl. repeats, any number/mix of registered and unregistered executes, any register/update/"
-                 "cancel attempt by any signer), that payouts go only to the registered withdrawers of top-level executes, are an "
+                 "cancel attempt by any signer, parameter changes by MsgUpdateParams and by genesis at any point of the history "
+                 "at every value incl. the all-zero corner), and AGAINST THE PARAMETERS AS SET by the last accepted update / genesis "
+                 "(the model reads them the way the keeper does, through ModuleParams.Sanitize of the stored item, whose rewrites "
+                 "are an extracted fact proved meaning-preserving on every run: C18_sanitize_keeps_the_meaning_of_params; "
+                 "C18_disabled_as_set_pays_nothing; C18_all_zero_params_read_as_defaults_refuted for the variant), that payouts go only to the registered withdrawers of top-level executes, are an "
                  "equal split, total at most share x allowed fee + one unit per recipient and denom (C18_payout_bound proves the "
                  "exact n/2 of banker's rounding), never exceed the tx's own fee + n, are zero when disabled/unregistered/in other "
                  "denoms, come out of the collector (delta = fee - payouts, conservation), and that registry entries change only "
@@ -269,8 +320,9 @@ MANIFEST = {
                  "accept/reject class) and the proved-sound checker Pb_tx is evaluated on those traces."),
         "design_ref": "DESIGN.md §5 C18",
     },
-    "level_note": ("Hypotheses of the theorems: fee collector blocked and fee coin counted once (generated facts), share in [0,1] "
-                   "(enforced by the modelled Params.Validate along histories), non-negative fee amounts (sdk.Coins invariant). "
+    "level_note": ("Hypotheses of the theorems: fee collector blocked, fee coin counted once and Sanitize meaning-preserving "
+                   "(generated facts, discharged for the extracted configuration: C18_property_holds_for_the_extracted_configuration), "
+                   "share in [0,1] and stored item = what was set up to meaning (enforced by the modelled Validate / invariant along histories), non-negative fee amounts (sdk.Coins invariant). "
                    "Trusted: Coq kernel + vm_compute, Lib/Dec.v, the go/ast extractor harness/gen/c18, the Go driver's "
                    "canonicalisation (address ids, error enum), this plugin's rendering. Not modelled: wasm VM (execute success is "
                    "predicted from payload flag / existence / reflect owner), distribution's sweep of the collector (balances "
